@@ -68,7 +68,11 @@ def gen_structure(g):
             return
         if 'kron' in v.tags:
             a, b = v.tags['kron']
-            parts.append(('kron', a.tags.get('comp'), b.tags.get('comp')))
+            def slice_index(x):
+                so = x.tags.get('sel_of') if isinstance(x, Arr) else None
+                ints = [s_[1] for s_ in so[1] if s_[0] == 'int'] if so else []
+                return ints[0] if len(ints) == 1 else None
+            parts.append(('kron', _root_comp(a), _root_comp(b), slice_index(a), slice_index(b)))
             return
         if 'einsum' in v.tags:
             pat, ops = v.tags['einsum']
@@ -83,8 +87,14 @@ def gen_structure(g):
 
 def _root_comp(v):
     seen = 0
-    while isinstance(v, Arr) and 'comp' not in v.tags and v.parents and seen < 6:
-        v = v.parents[0]
+    while isinstance(v, Arr) and 'comp' not in v.tags and seen < 6:
+        so = v.tags.get('sel_of')
+        if so is not None:
+            v = so[0]
+        elif v.parents:
+            v = v.parents[0]
+        else:
+            break
         seen += 1
     return v.tags.get('comp') if isinstance(v, Arr) else None
 
@@ -256,17 +266,24 @@ def check(repo, tier):
                             seen_bonds.setdefault(struct[1], K)
                     badg = []
                     for parts, K in seen_bonds.items():
-                        krons = [p for p in parts if p[0] == 'kron']
-                        eins = [p for p in parts if p[0] == 'einsum']
-                        if len(krons) != 1 or len(eins) != 1 or len(parts) != 2:
-                            badg.append(f'a two-site generator consists of {parts} instead of kron(S_i, I_(i+1)) + sum_k L_i^k (x) M_(i+1)^k')
+                        # single-site part: kron(S_i, I_(i+1));  coupling part: einsum over the interaction index of (L_i, M_(i+1)), or the (loop) sum of
+                        # kron(L_i[:, :, k], M_(i+1)[k, :, :]) with one and the same k
+                        single = [p for p in parts if p[0] == 'kron' and p[1] and p[1][0] == 'S']
+                        coupling = [p for p in parts if p not in single]
+                        if any(p[0] == '?' for p in parts):
+                            raise AnalysisError(f'{scen}: a two-site generator contains a term the analysis does not recognise: {parts}')
+                        if len(single) != 1 or not coupling:
+                            badg.append(f'a two-site generator consists of {[q[:3] for q in parts]} instead of kron(S_i, I_(i+1)) + sum_k L_i^k (x) M_(i+1)^k')
                             continue
-                        _, a_, b_ = krons[0]
+                        a_, b_ = single[0][1], single[0][2]
                         if not (a_ and b_ and a_[0] == 'S' and b_[0] == 'I' and (hom or b_[1] == a_[1] + 1)):
                             badg.append(f'the single-site part of a generator is kron({a_}, {b_}) instead of kron(S_i, I_(i+1))')
-                        _, pat, ops = eins[0]
-                        if not (ops[0] and ops[1] and ops[0][0] == 'L' and ops[1][0] == 'M' and (hom or ops[1][1] == ops[0][1] + 1) and (hom or (a_ and ops[0][1] == a_[1]))):
-                            badg.append(f'the coupling part of a generator contracts {ops} instead of (L_i, M_(i+1))')
+                        for cp in coupling:
+                            ops = cp[2] if cp[0] == 'einsum' else (cp[1], cp[2])
+                            if not (ops[0] and ops[1] and ops[0][0] == 'L' and ops[1][0] == 'M' and (hom or ops[1][1] == ops[0][1] + 1) and (hom or (a_ and ops[0][1] == a_[1]))):
+                                badg.append(f'the coupling part of a generator combines {ops} instead of (L_i, M_(i+1))')
+                            if cp[0] == 'kron' and len(cp) == 5 and (cp[3] is not None or cp[4] is not None) and cp[3] is not cp[4] and cp[3] != cp[4]:
+                                badg.append(f'the coupling part pairs slice {cp[3]} of L with slice {cp[4]} of M')
                         rows = [(l.resolve().key, l.resolve().var) for l in K.legs[0]]
                         cols = [(l.resolve().key, l.resolve().var) for l in K.legs[1]]
                         if not hom and a_:
@@ -296,9 +313,11 @@ def check(repo, tier):
                         out.append(None)
                         continue
                     st = gen_structure(info[1])
-                    out.append((round(float(info[0].real if isinstance(info[0], complex) else info[0]), 12), st[0], tuple(p[0] for p in st[1]) if st[0] == 'bond' else None))
+                    # (the coupling term may be written as an einsum over the interaction index or as a sum of Kronecker products: both are 'coupling')
+                    kinds = tuple(sorted({('single' if (p[0] == 'kron' and p[1] and p[1][0] == 'S') else 'coupling' if p[0] in ('kron', 'einsum') else p[0]) for p in st[1]})) if st[0] == 'bond' else None
+                    out.append((round(float(info[0].real if isinstance(info[0], complex) else info[0]), 12), st[0], kinds))
                 sig[hom] = out
-        want = [(0.25 if k % 2 == 0 else 0.75, 'site' if k == d - 1 else 'bond', None if k == d - 1 else ('kron', 'einsum')) for k in range(d)]
+        want = [(0.25 if k % 2 == 0 else 0.75, 'site' if k == d - 1 else 'bond', None if k == d - 1 else ('coupling', 'single')) for k in range(d)]
         for hom in (False, True):
             good = sig.get(hom) == want
             run.oblige('D5', (entry, d, hom), good, sample={'rule': 'D5', 'order': d, 'homogeneous': hom, 'propagators': str(sig.get(hom))} if d == 3 else None)
